@@ -304,7 +304,7 @@ def api_sequences(ctx, thorough):
                 seqs.append((0, [o1, o2]))
                 n2 += 1
     ctx.count("api_len2", n2)
-    n3 = 200000 if thorough else 6000
+    n3 = 100000 if thorough else 6000
     mut_list = mut
     for _ in range(n3):
         seqs.append((rng.choice([0, 0, 0, 1]), [rng.choice(mut_list), rng.choice(mut_list), rng.choice(full)]))
